@@ -383,10 +383,48 @@ impl Check for C06 {
                 st.maxi(&format!("ladder:{}", family), n as u64);
                 judge(st, index, "size-ladder", &format!("{}={}", family, n), &text, hz);
             }
-            _ if index % 16 == 15 => {
+            _ if index % 16 == 7 => {
+                // variable usage patterns: initialiser (literal / computed) x later writes (none, `=` once or
+                // twice, `+=`) x reads (0, 1, 2) x scope (local, global, captured by a closure): an emitter
+                // that inlines single-use values must still produce loadable Lua for every combination
+                let k = (index / 16) as usize;
+                let inits = ["0", "1.5", "\"s\"", "true", "v + 1", "(1, 2)", "Maybe.None"];
+                let init = inits[k % inits.len()];
+                let writes = (k / inits.len()) % 4;
+                let reads = (k / (inits.len() * 4)) % 3;
+                let scope = (k / (inits.len() * 12)) % 3;
+                let other = match init {
+                    "0" | "v + 1" => "7",
+                    "1.5" => "2.5",
+                    "\"s\"" => "\"t\"",
+                    "true" => "false",
+                    "(1, 2)" => "(3, 4)",
+                    _ => "Maybe.Just 1",
+                };
+                let addable = matches!(init, "0" | "1.5" | "\"s\"" | "v + 1" | "(1, 2)");
+                let mut use_lines = String::new();
+                match writes {
+                    1 => use_lines.push_str(&format!("w = {}\n", other)),
+                    2 => use_lines.push_str(&format!("w = {}\nw = {}\n", other, init.replace("v + 1", "3"))),
+                    3 if addable => use_lines.push_str(&format!("w += {}\n", other)),
+                    _ => {}
+                }
+                for _ in 0..reads {
+                    use_lines.push_str("print(w)\n");
+                }
+                let ind = |t: &str, n: usize| t.lines().map(|l| format!("{}{}\n", " ".repeat(n), l)).collect::<String>();
+                let (globals, body) = match scope {
+                    0 => (String::new(), format!("    w := {}\n{}", init.replace("v + 1", "v + 1"), ind(&use_lines, 4))),
+                    1 => (format!("w := {}\n", init.replace("v + 1", "g + 1")), ind(&use_lines, 4)),
+                    _ => (String::new(), format!("    w := {}\n    h :: fn do\n{}    end\n    h()\n", init, ind(&use_lines, 8))),
+                };
+                let what = format!("init {} / writes {} / reads {} / scope {}", init, ["none", "= once", "= twice", "+= once"][writes], reads, ["local", "global", "captured"][scope]);
+                judge(st, index, "variable-usage", &what, &base("x", &body, &globals), None);
+            }
+            _ if index % 32 == 15 => {
                 // whole generated programs (closures, loops, case/if expressions, higher-order calls, dead
                 // code after ret/break/continue ...): whatever the compiler accepts must load
-                let p = crate::gen::generate(&mut rng, crate::gen::Cfg::general(2 + (index / 16 % 2) as u32));
+                let p = crate::gen::generate(&mut rng, crate::gen::Cfg::general(2 + (index / 32 % 2) as u32));
                 let text = crate::print::canonical(&p);
                 judge(st, index, "generated-program", "typed generator", &text, Some("size_beyond_lua_limits"));
             }
@@ -422,7 +460,7 @@ impl Check for C06 {
     }
     fn finish(&self, _ctx: &Ctx, st: &Stats) -> Finish {
         let mut inconclusive = Vec::new();
-        for fam in ["field-name", "string-literal", "number-literal", "unused-expression", "dead-code-after-jump", "size-ladder", "combination", "nested-operators", "generated-program"] {
+        for fam in ["field-name", "string-literal", "number-literal", "unused-expression", "dead-code-after-jump", "size-ladder", "combination", "nested-operators", "generated-program", "variable-usage"] {
             if st.get(&format!("tried:{}", fam)) == 0 {
                 inconclusive.push(format!("family never tried: {}", fam));
             }
@@ -433,7 +471,7 @@ impl Check for C06 {
         Finish {
             level: "exploration",
             rule: format!(
-                "template programs with lexical slots filled from hostile pools: {} field names (Lua-only keywords, preamble globals), {} string literals (all printable ASCII, multi-byte, ]] and --, backslash sequences, embedded newline/CR), {} numeric literals (leading zeros, 1. .5, exponents, 1e308, 1e-400, i64 max, overflow to infinity), {} expression kinds as unused statements in 5 positions, statements (also closures, loops, if/else, blocks, case, lambdas) after ret/break/continue/<!>, whole generated programs of the typed generator, a bounded-exhaustive family of nested operator expressions outer(inner, inner) over 20 integer and 11 boolean building blocks (unary minus/not next to every binary operator, call, field, index, if- and case-expressions), 8 size ladders (reads per function, globals, parenthesis nesting, operator chains, call arguments, nested ifs, list elements, nested closures) over rungs {:?}. Oracle: luamon's load phase (syntax, return-not-last, break-outside-loop, goto rules, limits with grey zones). Non-trivial & distinct: accepted programs that loaded, by source hash.",
+                "template programs with lexical slots filled from hostile pools: {} field names (Lua-only keywords, preamble globals), {} string literals (all printable ASCII, multi-byte, ]] and --, backslash sequences, embedded newline/CR), {} numeric literals (leading zeros, 1. .5, exponents, 1e308, 1e-400, i64 max, overflow to infinity), {} expression kinds as unused statements in 5 positions, statements (also closures, loops, if/else, blocks, case, lambdas) after ret/break/continue/<!>, whole generated programs of the typed generator, variable usage patterns (7 initialisers x 4 write patterns x 0-2 reads x local | global | captured), a bounded-exhaustive family of nested operator expressions outer(inner, inner) over 20 integer and 11 boolean building blocks (unary minus/not next to every binary operator, call, field, index, if- and case-expressions), 8 size ladders (reads per function, globals, parenthesis nesting, operator chains, call arguments, nested ifs, list elements, nested closures) over rungs {:?}. Oracle: luamon's load phase (syntax, return-not-last, break-outside-loop, goto rules, limits with grey zones). Non-trivial & distinct: accepted programs that loaded, by source hash.",
                 FIELD_NAMES.len(),
                 STRINGS.len(),
                 NUMBERS.len(),
